@@ -89,7 +89,9 @@ def reformat_file(
         raise ValueError("Cannot use `inplace` with stdin")
 
     if read_stdin:
-        text = sys.stdin.read()
+        # Read stdin the way files are read in text mode (universal newlines), so that the
+        # same bytes give the same result whether they come from a file or from a pipe.
+        text = sys.stdin.read().replace("\r\n", "\n").replace("\r", "\n")
     else:
         text = Path(path).read_text()
 
